@@ -471,6 +471,20 @@ def c12(prop, tier):
                        "tlc Proxy.tla + vh proxy (iface / http / grpc / s3 / writes)")
 
 
+@check("C08")
+def c08(prop, tier):
+    models = [
+        ("Crash", "Crash.tla", "Crash_known.cfg", "one key, an optional acknowledged earlier version, a writer going through create / write / write / finalise / close / index / ack / unlink, a kill between any two steps, the loader (duplicates: most recently used valid file), a read with the size known or unknown: no torn read, acknowledged versions served, served versions complete - over kind x storage mode x earlier version x size known; states of the recorded known finding (files without self-validating header) are excluded by a constraint that mirrors known_findings.jsonl", "cr"),
+    ]
+    drivers = [("crash", ["crash", "-cases", "{cr}", "-tier", "{tier}", "-seed", "{seed}"])]
+    return multi_check(prop, tier, models, drivers,
+                       ["a kill is a process kill: what completed write() calls put into the files stays (no power-loss model); the image is a copy of the directory, with access and modification times, taken while the writer is held at the place - inside the reader the harness supplies, inside the backend stream, or at a verif gate",
+                        "the window between the last chunk and the finalised chunk table of a compressed blob is reached through the reader (all bytes delivered, end of stream not yet seen); the hash check and fsync are not separate kill places",
+                        "every image is restarted in the same storage mode, every third one (thorough: every one) also in the other mode",
+                        "the remover is stopped between unlinks through the verif gate 'evict'"],
+                       "tlc Crash.tla + vh crash")
+
+
 @check("C09")
 def c09(prop, tier):
     models = [
